@@ -41,6 +41,77 @@ CHECKS = {
    note="The [-1,1] clause is checked on the implementation with a 1e-9 allowance (real outputs contain 1.0000000000000002), the model proves it "
         "exactly; aggregate probability compared with the float running product within 1e-12.",
    technique=TECH, ref="DESIGN.md section 7 C03"),
+ 'C05': dict(
+   text="Theorems: c05_chunks_cover (for every row count and chunk size >= 1 the chunk list starts at 0, is contiguous, has no empty chunk, ends at n and concatenating "
+        "the row blocks gives the matrix: every row exactly once, in file order), c05_load_csr_exact, c05_iterate_csr_exact, c05_iterate_dense_exact, "
+        "c05_iterate_csc_exact (the CSC path: on-disk conversion for every memory budget and load chunk size, then CSR, returns exactly the rows of the transpose "
+        "of the column-major view) and c05_encodings_agree (dense, CSR and CSC encodings of one matrix iterate to the same rows). Tie: AnnDataRowIterator / get_batch / "
+        "inner functions on generated matrices (empty rows and columns, one row, >100 stored values) x {dense, CSR, CSC} x {X, layer} x dtypes x HDF5 chunk shapes x "
+        "chunk sizes x max_gb down to the enforced minima, vs the extracted model.",
+   note="get_batch (exact for duplicate-free row lists / rejects others) is covered by the correspondence check only (statements kept as comments in Props/C05.v); "
+        "h5py slicing and scipy toarray are trusted; F2c (CSC matrix without any stored value makes the conversion raise) is a known finding.",
+   technique=TECH, ref="DESIGN.md section 7 C05"),
+ 'C07': dict(
+   text="Theorems over an exact-arithmetic model of the normalisation path (CPM as fractions; log2(1+.) an arbitrary function of the value): c07_scale_invariant "
+        "(+ rational form), c07_raw_equals_declared_normalised (normalisation happens on the full gene set before marker down-selection), c07_gene_permutation "
+        "(columns and names permuted together leave every per-parent query matrix unchanged, for every bootstrap factor since subsets index the reference-ordered marker "
+        "list), c07_extra_genes_irrelevant, c07_only_marker_values_by_name_matter, c07_negative_raw_rejected, c07_normalise_after_downsample_rejected (with an example "
+        "showing the guard matters). Tie: convert_to_cpm (exact stream / 1e-12 stream decided per row), CellByGeneMatrix constructor and random operation sequences, "
+        "write_query_markers_to_h5 + is_data_ge_zero + AnnDataRowIterator + assemble_query_data vs prepare_query, plus paired real run_mapping runs (raw vs "
+        "pre-normalised, scaling, gene permutation, extra genes, negative value rejected).",
+   note="The theorems are about prepare_query (the per-parent query matrices); that this determines every vote is C02's model. The only assumption about log2(1+.) is "
+        "that it depends on the value of its argument alone. Floating-point rounding is outside the model: values compared exactly where every float operation is "
+        "exact by construction, at 1e-12 relative otherwise; run_mapping pairs bitwise for permutation / extra genes / power-of-two scaling, 1e-9 otherwise.",
+   technique=TECH, ref="DESIGN.md section 7 C07"),
+ 'C09': dict(
+   text="Theorems: c09_additive, c09_commutative_monoid, c09_order_irrelevant; c09_partition_independent (+ pairwise form: for every split of the cells into files, every "
+        "rows_at_a_time >= 1 and worker count >= 1 the written table equals the direct per-cluster computation), c09_unlabelled_contribute_nothing, c09_work_split_safe / "
+        "c09_work_split_covers (no IndexError, the loads partition the chunk list), c09_rows_addressed_by_name, c09_merge_keeps_largest, c09_merge_tie_rule, "
+        "c09_truncation_partial (table level: each new leaf's row is the statistics of the union of its old leaves' cells), c09_truncation_groups, c09_collapse_is_additive. "
+        "Tie: precompute_summary_stats_from_h5ad[_list_and_tree], truncate_precomputed_stats_file, merge_precompute_files on generated references x file splits x encodings "
+        "x rows_at_a_time x workers vs the extracted model.",
+   note="c09_truncation is _partial: identifying the old tree's ancestor relation with the truncated tree's structure is C10's drop_level lemma and is not composed in. "
+        "Float summation not modelled: sums exact on dyadic inputs, within 2(n+2) eps sum|x| on raw counts. Known finding F2s (CSC file without stored values).",
+   technique=TECH, ref="DESIGN.md section 7 C09"),
+ 'C11': dict(
+   text="Theorems: c11_holm_tie_invariant (for every argsort result), c11_restricted_holm_equiv / _decisions (the restricted Holm variant decides exactly as full Holm at "
+        "p_th), c11_boring_t_sound_partial, c11_penetrance_sound (under the 1e-5 margin) with c11_sound_refuted (F8 witness), c11_penetrance_complete, c11_sound, "
+        "c11_sound_full_holm, c11_complete, c11_exact_iff, c11_direction, c11_up_down_exact, c11_no_gene_both_ways, c11_up_down_cover, c11_pair_swap, c11_chunk_merge "
+        "(every n_per), c11_worker_independent, c11_mask_file_exact, c11_mask_file_strict_is_zero, c11_mask_route_sound, c11_mask_route_complete. Tie: correct_ttest / "
+        "approx_correct_ttest / penetrance tests / score_differential_genes / _get_validity_mask on a dyadic grid where binary64 is exact, and both marker routes end to end "
+        "on generated statistics files vs the extracted model.",
+   note="c11_boring_t_sound is _partial (the CDF step is a numeric per-run check; scipy CDFs not modelled); c11_tables_transpose is C13's. Known findings F8, F16, F17.",
+   technique=TECH, ref="DESIGN.md section 7 C11"),
+ 'C13': dict(
+   text="Theorems: c13_count_pass (chunk-size independence), c13_transpose_exact (the Gallina model of transpose_sparse_matrix_on_disk — count pass, block loop with fuel, "
+        "load chunks, next-free-slot table — equals the abstract transpose for every well-formed input, slice, elements_at_a_time and chunk sizes >= 1: monotone pointer array "
+        "from 0 to nnz, indices sorted within each row, every value at its transposed position, termination within the fuel), c13_transpose_is_spec, c13_transpose_pattern, "
+        "c13_block_loop_terminates, c13_transpose_no_value_rejects (F2 in the model), c13_parallel_concat (the parallel version equals the serial specification whenever it "
+        "returns), c13_slices_partition, c13_copy_h5_1d/2d, c13_copy_layer_sparse/dense. Tie: every 0/1 pattern up to 3x3 (quick) / 4x4 (thorough) + random larger matrices "
+        "through transpose_sparse_matrix_on_disk, csc_to_csr_on_disk, the v2 parallel version (1-4 workers), pivot_csr_h5ad, shuffle_csr_h5ad_rows, subset_csc_h5ad_columns, "
+        "amalgamate_h5ad, copy_layer_to_x, copy_h5_excluding_data, with observed loop bounds compared to the model's.",
+   note="shuffle_rows / subset_columns / amalgamate are modelled and tied by differential testing only (statements kept as comments in Props/C13.v); gzip not modelled; "
+        "known findings F2, F2w, F4, F4z, F4m, F2a, amalgamate-empty-piece, copy-layer-empty-sparse.",
+   technique=TECH, ref="DESIGN.md section 7 C13"),
+ 'C17': dict(
+   text="Theorems over a model of _run_mapping's data flow (reduce -> election on the reduced tree -> directly_assigned -> backfill with the stored tree), generic in marker cache "
+        "and vote: c17_drop_equals_reduced (records at all other levels equal those of the run on drop_level t L; at L the parent of the finer assignment, flagged inferred, "
+        "no runner-up fields), c17_flatten_equals_one_level, c17_drop_absent_level_noop, c17_backfilled_path (the completed cell is a flagged root-to-leaf path of the stored "
+        "tree), c17_no_key_error, c17_total. Tie: real drop_level / flatten / backfill_assignments on every tree shape up to 4 levels x every droppable level / flatten / absent "
+        "level vs the model; oracle election on the really reduced tree; paired real run_mapping runs compared bitwise and replayed through the model.",
+   note="Vote, marker reconciliation, chunking and re-ordering are abstract or outside RunMapping.v (C02/C08/C01/C04); tree_ok adds 'no childless internal node' to the "
+        "validator's guarantees (F3).",
+   technique=TECH, ref="DESIGN.md section 7 C17"),
+ 'C19': dict(
+   text="Theorems about an executable acceptor of file-operation traces (Model/FsModel.v): c19_acceptor_sound (every accepted trace leaves each input with its content, "
+        "restores scratch after ok and strict-error returns, creates only at declared outputs), c19_stale_independence (acceptance and final outputs do not depend on stale "
+        "content of scratch/output directories that avoids the fresh names), c19_concurrent_noninterference (every interleaving of two compatible accepted runs is accepted "
+        "and each ends as in its solo run). Tie: the four real stages run under strace -f in child interpreters; parsed traces decided by the extracted acceptor, the model's "
+        "final file system compared with the observed listing; digests, listings and results compared with an undisturbed run; histories: success after success / failure / "
+        "injected worker failure, stale files under every temporary-name pattern, obsm_key, concurrent pairs replayed as one interleaving.",
+   note="Partial by nature: the theorems speak about accepted traces; that real runs produce accepted traces is established only for the runs traced. tempfile uniqueness, CPython "
+        "destructor timing, HDF5's O_RDWR probe and stat-like probes are outside the model. Known findings F9 (result_buffer_* left after a failed mapping), F9b (log appended).",
+   technique="Coq proof of hand-written Gallina acceptor model + correspondence check (strace'd traces of the real stages decided by the extracted acceptor)", ref="DESIGN.md section 7 C19"),
  'C06': dict(
    text="Theorems: c06_factor_one_subset_is_everything (with bootstrap factor 1 every acceptable draw, sorted as tally_votes sorts it, is the whole marker "
         "list 0..n-1 whatever the generator returned) and c06_nearest_independent_of_draw; c06_per_cell (for EVERY decision procedure whose record for a cell "
